@@ -1,6 +1,8 @@
 """Check driver for C15."""
 import copy
 import json
+import os
+import sys
 import time
 from collections import Counter
 
@@ -240,6 +242,9 @@ def check(args):
         sweep_info = {"cases": len(sw), "executed": agg["summary"]["cases"] - before, "complete": complete, "wall_s": round(time.time() - t2, 1)}
     s = agg.get("summary") or {"cases": 0, "outcomes": {}, "by_fault": {}, "fired": {}, "nontrivial": set(), "dropped": set(), "skipped": 0, "steps": 0, "max_ratio": 0, "wf_rejects": 0, "native_rejected_malformed": 0}
     # ---- stalls: a case that stalled under load is a violation only if it stalls again alone with a 10x limit
+    if suspects and os.environ.get("VERIF_DEBUG"):
+        for c in suspects[:12]:
+            print("[C15] stalled:", json.dumps(c)[:300], file=sys.stderr)
     solo = {i: (st, val) for i, st, val in core.run_batch(_single_task, suspects[:12], timeout=10 * c15_idle())} if suspects else {}
     for i, case in enumerate(suspects[:12]):
         status, out = solo.get(i, ("missing", None))
